@@ -622,8 +622,14 @@ func (s *IndexedState) deleteDependencies(ctx *Context, id string) error {
 		// and everything that has a 'deleteWith' a dependent.
 		return nil
 	}
-	srs, err := s.search(ctx, Map{KW_DeleteWith: []string{id}})
+	var stale []string
+	srs, err := s.search(ctx, Map{KW_DeleteWith: []string{id}}, &stale)
 	if nil != err {
+		return err
+	}
+	// (We hold the write lock.)  What the search found expired goes
+	// as well, as it always did.
+	if err = s.sweep(ctx, stale); nil != err {
 		return err
 	}
 	Log(DEBUG, ctx, "IndexedState.deleteDependencies", "location", s.Name, "id", id, "found", len(srs.Found))
@@ -702,34 +708,103 @@ func (s *IndexedState) Get(ctx *Context, id string) (Map, error) {
 }
 
 func (s *IndexedState) get(ctx *Context, id string, getLock bool) (Map, error) {
-	// Assumes we have a read lock!
 	Log(DEBUG, ctx, "IndexedState.get", "name", s.Name, "id", id)
 
+	var fact Map
+	var found, expired bool
+	var err error
 	if getLock {
-		s.slock(ctx, true)
+		fact, found, expired, err = s.look(ctx, id)
+	} else {
+		fact, found, expired, err = s.peek(ctx, id)
 	}
-	fact, found := s.IdToFact[id]
-	if getLock {
-		s.sunlock(ctx, true)
-	}
-
-	if !found {
-		return nil, NewNotFoundError("%s", id)
-	}
-
-	expired, err := s.expire(ctx, id, fact, 0)
 	if err != nil {
 		Log(ERROR, ctx, "IndexedState.Get", "error", err, "when", "expiring")
 		return nil, err
 	}
+	if !found {
+		return nil, NewNotFoundError("%s", id)
+	}
 	if expired {
 		Log(ERROR, ctx, "IndexedState.Get", "expired", expired, "id", id)
+		// It goes (with the write lock, which we do not hold
+		// here, and only if it is still the expired fact).
+		if err = s.purge(ctx, []string{id}); err != nil {
+			Log(ERROR, ctx, "IndexedState.Get", "error", err, "when", "expiring")
+			return nil, err
+		}
 		return nil, NewNotFoundError("%s", id)
 	}
 
 	maybeInjectId(ctx, id, fact, false)
 	return fact, nil
 }
+
+// look finds the fact and says whether it has expired.  It removes
+// nothing.
+func (s *IndexedState) look(ctx *Context, id string) (Map, bool, bool, error) {
+	s.slock(ctx, true)
+	defer s.sunlock(ctx, true)
+	return s.peek(ctx, id)
+}
+
+// peek is 'look' for a caller that holds the lock.
+func (s *IndexedState) peek(ctx *Context, id string) (Map, bool, bool, error) {
+	fact, found := s.IdToFact[id]
+	if !found {
+		return nil, false, false, nil
+	}
+	expired, err := checkExpiration(ctx, fact, 0)
+	if err != nil || expired {
+		return nil, true, expired, err
+	}
+	return fact, true, false, nil
+}
+
+// expired says whether the given fact has expired, and notes its id
+// in 'stale' if it has.  Nothing is removed: the caller might hold
+// only the read lock.  It is up to the caller to remove what is
+// stale: 'purge', for a reader that has let go of its lock.
+func (s *IndexedState) expired(ctx *Context, id string, fact map[string]interface{}, now int64, stale *[]string) (bool, error) {
+	gone, err := checkExpiration(ctx, fact, now)
+	if gone && stale != nil {
+		*stale = append(*stale, id)
+	}
+	return gone, err
+}
+
+// purge removes the facts with the given ids that have expired, the
+// way 'expire' does (record, index entries, dependents).
+//
+// Readers call this when they have let go of their read lock: a
+// removal needs the write lock.  What is stored under an id by the
+// time we have that lock is looked at again: it might be a new fact.
+func (s *IndexedState) purge(ctx *Context, ids []string) error {
+	if len(ids) == 0 {
+		return nil
+	}
+	s.slock(ctx, false)
+	defer s.sunlock(ctx, false)
+	return s.sweep(ctx, ids)
+}
+
+// sweep is 'purge' for a caller that holds the write lock.
+func (s *IndexedState) sweep(ctx *Context, ids []string) error {
+	var first error
+	now := NowSecs()
+	for _, id := range ids {
+		if fact, have := s.IdToFact[id]; have {
+			if _, err := s.expire(ctx, id, fact, now); err != nil && first == nil {
+				first = err
+			}
+		}
+	}
+	return first
+}
+
+// purgeTries is how many times a reader that has met expired facts
+// starts over after they (and their dependents) have been removed.
+const purgeTries = 2
 
 func (s *IndexedState) SearchForIDs(ctx *Context, pattern Map) ([]string, error) {
 	Log(DEBUG, ctx, "IndexedState.SearchForIDs", "location", s.Name, "pattern", pattern)
@@ -775,14 +850,40 @@ func (s *IndexedState) Search(ctx *Context, pattern Map) (*SearchResults, error)
 	timer := NewTimer(ctx, "IndexedState.Search")
 	defer timer.Stop()
 
-	s.slock(ctx, true)
-	defer s.sunlock(ctx, true)
-	srs, err := s.search(ctx, pattern)
-
-	return srs, err
+	// Under the read lock nothing is removed.  What we find expired
+	// goes (with its dependents, which we might have found, too)
+	// once we have let go of that lock, and then we look again.
+	expired := 0
+	for try := 0; ; try++ {
+		var stale []string
+		srs, err := s.searchShared(ctx, pattern, &stale)
+		if err != nil || len(stale) == 0 {
+			if srs != nil {
+				srs.Expired += expired
+			}
+			return srs, err
+		}
+		expired += len(stale)
+		if err = s.purge(ctx, stale); err != nil {
+			Log(ERROR, ctx, "IndexedState.Search", "error", err, "when", "expiring")
+		}
+		if purgeTries <= try+1 {
+			srs.Expired = expired
+			return srs, nil
+		}
+	}
 }
 
-func (s *IndexedState) search(ctx *Context, pattern Map) (*SearchResults, error) {
+func (s *IndexedState) searchShared(ctx *Context, pattern Map, stale *[]string) (*SearchResults, error) {
+	s.slock(ctx, true)
+	defer s.sunlock(ctx, true)
+	return s.search(ctx, pattern, stale)
+}
+
+// search does the work of 'Search'.  The caller holds the lock (the
+// read lock will do: nothing is removed).  The ids of the facts that
+// have expired are appended to 'stale', for the caller to remove.
+func (s *IndexedState) search(ctx *Context, pattern Map, stale *[]string) (*SearchResults, error) {
 	Log(DEBUG, ctx, "IndexedState.search", "pattern", pattern)
 	then := Now()
 
@@ -802,7 +903,7 @@ func (s *IndexedState) search(ctx *Context, pattern Map) (*SearchResults, error)
 			continue
 		}
 
-		done, err := s.expire(ctx, id, fact, now)
+		done, err := s.expired(ctx, id, fact, now, stale)
 		if err != nil {
 			Log(ERROR, ctx, "IndexedState.search", "error", err, "when", "expiring")
 		}
@@ -857,6 +958,23 @@ func (s *IndexedState) FindRules(ctx *Context, event Map) (map[string]Map, error
 }
 
 func (s *IndexedState) doFindRules(ctx *Context, event Map) (map[string]Map, error) {
+	// As in 'Search': nothing is removed under the read lock.
+	for try := 0; ; try++ {
+		var stale []string
+		acc, err := s.findRulesShared(ctx, event, &stale)
+		if err != nil || len(stale) == 0 {
+			return acc, err
+		}
+		if err = s.purge(ctx, stale); err != nil {
+			Log(ERROR, ctx, "IndexedState.FindRules", "error", err, "when", "expiring")
+		}
+		if purgeTries <= try+1 {
+			return acc, nil
+		}
+	}
+}
+
+func (s *IndexedState) findRulesShared(ctx *Context, event Map, stale *[]string) (map[string]Map, error) {
 	s.slock(ctx, true)
 	defer s.sunlock(ctx, true)
 
@@ -873,7 +991,7 @@ func (s *IndexedState) doFindRules(ctx *Context, event Map) (map[string]Map, err
 		rule, ok := s.IdToFact[id]
 		Log(DEBUG, ctx, "IndexedState.FindRules", "rule", rule, "ruleId", id)
 
-		expired, err := s.expire(ctx, id, rule, now)
+		expired, err := s.expired(ctx, id, rule, now, stale)
 		if err != nil {
 			Log(ERROR, ctx, "IndexedState.FindRules", "error", err, "when", "expiring")
 		}
